@@ -19,6 +19,10 @@ structure Rel (cfg : Cfg) (s : St) (r : R) : Prop where
   timer : s.timer = r.timer
   timer_wait : r.timer = true → r.waiting ≠ []
   dur : ∀ pend d, s.sd = some (.awaiting pend d) → d = effDur cfg.dur
+  stale : ∀ f p, p ∈ (s.tabs f).stale ↔ (f, p) ∈ r.stale
+  llgr : ∀ f p, p ∈ (s.tabs f).llgr ↔ (f, p) ∈ r.llgr
+  invalid : s.invalid = r.invalid
+  up : s.up = r.up
 
 theorem holds_iff {f : Fam} {w : List (Peer × Fam)} : holds f w = true ↔ ∃ p, (p, f) ∈ w := by
   simp only [holds, List.any_eq_true, decide_eq_true_eq]
@@ -70,16 +74,16 @@ theorem mem_flagsOf {t : Tabs} {u : List Fam} {f : Fam} :
   simp [flagsOf]
 
 /-- Releasing a duplicate-free list of families: what is announced for one of them. -/
-theorem filter_flatMap_announce {fs : List Fam} (hn : fs.Nodup) (t : Tabs) (f : Fam) :
-    (fs.flatMap fun g => announce g (t g).paths).filter (·.fam = f) =
-      if f ∈ fs then announce f (t f).paths else [] := by
+theorem filter_flatMap_announce {fs : List Fam} (hn : fs.Nodup) (P : Fam → List (Nat × Peer)) (f : Fam) :
+    (fs.flatMap fun g => announce g (P g)).filter (·.fam = f) =
+      if f ∈ fs then announce f (P f) else [] := by
   induction fs with
   | nil => simp
   | cons g fs ih =>
       rw [List.nodup_cons] at hn
       simp only [List.flatMap_cons, List.filter_append, ih hn.2]
-      have hself : ∀ g, (announce g (t g).paths).filter (·.fam = f) =
-          if g = f then announce g (t g).paths else [] := by
+      have hself : ∀ g, (announce g (P g)).filter (·.fam = f) =
+          if g = f then announce g (P g) else [] := by
         intro g
         by_cases h : g = f
         · subst h
@@ -102,8 +106,8 @@ theorem filter_flatMap_announce {fs : List Fam} (hn : fs.Nodup) (t : Tabs) (f : 
       · have : f ≠ g := fun h' => h h'.symm
         simp [h, this]
 
-theorem mem_flatMap_announce_fam {fs : List Fam} {t : Tabs} {c : Change}
-    (h : c ∈ fs.flatMap fun g => announce g (t g).paths) : c.fam ∈ fs := by
+theorem mem_flatMap_announce_fam {fs : List Fam} {P : Fam → List (Nat × Peer)} {c : Change}
+    (h : c ∈ fs.flatMap fun g => announce g (P g)) : c.fam ∈ fs := by
   simp only [List.mem_flatMap, announce, List.mem_map] at h
   obtain ⟨g, hg, n, _, rfl⟩ := h
   exact hg
@@ -125,12 +129,10 @@ theorem held_advance (cfg : Cfg) (r : R) (e : Ev) (f : Fam) :
   cases (next r e).deferred.contains f <;> cases (next r e).released.contains f <;>
     cases (releasedNow r (next r e)).contains f <;> rfl
 
-theorem next_timer (r : R) (e : Ev) : (next r e).timer = r.timer := by
-  cases e with
-  | rd i => cases i <;> rfl
-  | ins p f n => simp only [next]; split <;> rfl
-  | rm p f n => rfl
-  | drop p f => rfl
+theorem next_timer (r : R) (i : RIn) : (next r (.rd i)).timer = r.timer := by cases i <;> rfl
+theorem next_rd_stale (r : R) (i : RIn) : (next r (.rd i)).stale = r.stale := by cases i <;> rfl
+theorem next_rd_llgr (r : R) (i : RIn) : (next r (.rd i)).llgr = r.llgr := by cases i <;> rfl
+theorem next_rd_invalid (r : R) (i : RIn) : (next r (.rd i)).invalid = r.invalid := by cases i <;> rfl
 
 /-- the reference `started` flag: set by the first helper that establishes and is still waited for -/
 theorem next_started (r : R) (i : RIn) :
@@ -236,9 +238,10 @@ theorem step_rd {cfg : Cfg} {s : St} {r : R} (hr : Rel cfg s r) (i : RIn) (hwf :
         · exact Or.inl
       have htA : timerAfter cfg r (next r (.rd i)) = false := by simp [timerAfter, hw']
       have hstep : step s (.rd i) =
-          (s, { outs := [], changes := [], tag := .absent, pending := [], installed := false,
-                flags := flagsOf s.tabs s.univ, timer := s.timer }) := by
-        simp [step, hsd, obsOf]
+          ({ s with up := (next r (.rd i)).up },
+           { outs := [], changes := [], tag := .absent, pending := [], installed := false,
+             flags := flagsOf s.tabs s.univ, timer := s.timer }) := by
+        cases i <;> simp [step, hsd, obsOf, next, hr.up]
       rw [hstep]
       refine ⟨stepOk_ok (by simp) (fun f _ h => by simp [hnoheld f] at h) (by simp [hrn]) (by simp [hrn])
         (fun f _ _ => ⟨by simp [mentions], by simp⟩) (by simp) (by simp) (fun _ => by simp) (by simp)
@@ -252,7 +255,10 @@ theorem step_rd {cfg : Cfg} {s : St} {r : R} (hr : Rel cfg s r) (i : RIn) (hwf :
       refine ⟨fun m hm => by simp [hsd] at hm, fun _ => hw', fun f => by rw [hheld']; exact hr.flags f,
         fun f n p => by rw [next_rd_rib]; exact hr.rib f n p, fun f => ?_, fun _ e he => ?_, fun f hf => ?_,
         (by rw [next_timer]; exact hr.timer), (fun h => by rw [next_timer, hrt] at h; cases h),
-        (fun pend d h => by simp [hsd] at h)⟩
+        (fun pend d h => by simp [hsd] at h),
+        (fun f p => by rw [next_rd_stale]; exact hr.stale f p),
+        (fun f p => by rw [next_rd_llgr]; exact hr.llgr f p),
+        (by rw [next_rd_invalid]; exact hr.invalid), rfl⟩
       · rw [hheld', hnoheld f, hw']; simp [holds]
       · simp [tracked, hw']
       · rw [next_rd_deferred] at hf; exact hr.univ f hf
@@ -265,14 +271,15 @@ theorem step_rd {cfg : Cfg} {s : St} {r : R} (hr : Rel cfg s r) (i : RIn) (hwf :
       obtain ⟨cs, tail, hsh⟩ := sp.shape
       generalize hm' : (process m i).1 = m' at sp htag0 hpst
       generalize houts : (process m i).2 = outs at sp hsh hpst
-      have ha := applyOuts_spec { s with sd := some m' } outs
-      obtain ⟨e1, e2, e3⟩ := endDeferralFamilies_spec (relFams outs) s.tabs
-      generalize hA : applyOuts { s with sd := some m' } outs = A at ha
+      have ha := applyOuts_spec { s with sd := some m', up := (next r (.rd i)).up } outs
+      obtain ⟨e1, e2, e3, e4, e5⟩ := endDeferralFamilies_spec s.invalid (relFams outs) s.tabs
+      generalize hA : applyOuts { s with sd := some m', up := (next r (.rd i)).up } outs = A at ha
       have hstep : step s (.rd i) = (A.1, obsOf A.1 outs A.2) := by
-        simp [step, hsd, hm', houts, hA]
+        rw [← hA, ← hm', ← houts]
+        cases i <;> simp [step, hsd, next, hr.up]
       rw [hstep]
-      obtain ⟨ha1, ha2, ha3, ha4, ha5⟩ := ha
-      simp only at ha1 ha2 ha3 ha4 ha5
+      obtain ⟨ha1, ha2, ha3, ha4, ha5, ha6, ha7⟩ := ha
+      simp only at ha1 ha2 ha3 ha4 ha5 ha6 ha7
       -- pairs of the new machine vs. the new waiting list
       have hp' : ∀ x, x ∈ pairs (pendingOf m') ↔ x ∈ (next r (.rd i)).waiting := by
         intro x; rw [sp.pairs, hw1]; exact nextW_congr hp i x
@@ -319,7 +326,8 @@ theorem step_rd {cfg : Cfg} {s : St} {r : R} (hr : Rel cfg s r) (i : RIn) (hwf :
         intro f; rw [ha1, e2, hr.flags]
       have hpa : ∀ f, (A.1.tabs f).paths = (s.tabs f).paths := by
         intro f; rw [ha1, e1]
-      have hch : A.2 = (relFams outs).flatMap fun g => announce g (s.tabs g).paths := by rw [ha2, e3]
+      have hch : A.2 = (relFams outs).flatMap fun g => announce g (usable s.invalid (s.tabs g).paths) := by
+        rw [ha2, e3]
       -- the `started` flag of the reference follows the machine leaving `AwaitingStart`
       have hstd : (next r (.rd i)).started = true ↔ (r.started = true ∨ isDeferring m' = true) := by
         rw [next_started]
@@ -411,8 +419,10 @@ theorem step_rd {cfg : Cfg} {s : St} {r : R} (hr : Rel cfg s r) (i : RIn) (hwf :
         have := (mem_flagsOf.mp hfl').2
         rw [hfl, if_pos ((hrel f).mpr hf)] at this; cases this
       · intro f hf
-        apply exactRelease_announce (paths := (s.tabs f).paths)
-        · intro n p; rw [next_rd_rib]; exact hr.rib f n p
+        apply exactRelease_announce (paths := usable s.invalid (s.tabs f).paths)
+        · intro n p
+          rw [next_rd_rib, next_rd_invalid, ← hr.invalid]
+          simp only [usable, List.mem_filter, hr.rib]
         · simp only; rw [hch, filter_flatMap_announce sp.rel_nodup, if_pos ((hrel f).mpr hf)]
       · intro f hf hfr
         have hnh : held r f = false := by simp [held, hfr]
@@ -470,7 +480,10 @@ theorem step_rd {cfg : Cfg} {s : St} {r : R} (hr : Rel cfg s r) (i : RIn) (hwf :
           · simp [hf, (hrel f).mp hf]
           · have : f ∉ releasedNow r (next r (.rd i)) := fun h => hf ((hrel f).mpr h)
             simp [hf, this]
-        refine ⟨?_, ?_, ?_, ?_, ?_, ?_, ?_, htm, ?_, ?_⟩
+        refine ⟨?_, ?_, ?_, ?_, ?_, ?_, ?_, htm, ?_, ?_,
+          (fun f p => by rw [ha1, e4]; show _ ↔ (f, p) ∈ (next r (.rd i)).stale; rw [next_rd_stale]; exact hr.stale f p),
+          (fun f p => by rw [ha1, e5]; show _ ↔ (f, p) ∈ (next r (.rd i)).llgr; rw [next_rd_llgr]; exact hr.llgr f p),
+          (by rw [ha6]; show _ = (next r (.rd i)).invalid; rw [next_rd_invalid]; exact hr.invalid), ha7⟩
         · intro m2 hm2
           rw [ha3] at hm2
           by_cases hend : (endRemaining outs).isSome = true
@@ -563,104 +576,534 @@ theorem step_rd {cfg : Cfg} {s : St} {r : R} (hr : Rel cfg s r) (i : RIn) (hwf :
                 rw [hm', hsd2] at this
                 rw [← hd0]; exact this pend d rfl
 
-/-- RIB mutators: what the property needs from `insert_route` / `remove_route` / `drop_families` -/
-structure TabOp (t : Tabs) (rib : List (Fam × Nat × Peer)) (t' : Tabs) (rib' : List (Fam × Nat × Peer))
-    (f : Fam) (changes : List Change) : Prop where
+/-! ## RIB mutators -/
+
+/-- the tables against the reference's view of them -/
+def RelT (t : Tabs) (r : R) : Prop :=
+  (∀ f n p, (n, p) ∈ (t f).paths ↔ (f, n, p) ∈ r.rib) ∧
+  (∀ f p, p ∈ (t f).stale ↔ (f, p) ∈ r.stale) ∧
+  (∀ f p, p ∈ (t f).llgr ↔ (f, p) ∈ r.llgr)
+
+theorem Rel.relT {cfg : Cfg} {s : St} {r : R} (hr : Rel cfg s r) : RelT s.tabs r := ⟨hr.rib, hr.stale, hr.llgr⟩
+
+/-- What the property needs from every RIB mutator (`insert_route`, `remove_route`, `drop_families`,
+    `mark_stale`, `mark_llgr_stale`, `drop_stale_families`, `drop_llgr_stale_families`,
+    `update_nexthop_validity`, `unregister_peer`): the deferral flags stay, and no change is
+    returned for a family whose flag is set. -/
+structure TabOp (t t' : Tabs) (changes : List Change) : Prop where
   flag : ∀ g, (t' g).deferring = (t g).deferring
-  rib : (∀ g n p, (n, p) ∈ (t g).paths ↔ (g, n, p) ∈ rib) → ∀ g n p, (n, p) ∈ (t' g).paths ↔ (g, n, p) ∈ rib'
-  silent : (t f).deferring = true → changes = []
-  fam : ∀ c ∈ changes, c.fam = f
+  quiet : ∀ c ∈ changes, (t c.fam).deferring = false
 
-theorem insert_op (t : Tabs) (rib : List (Fam × Nat × Peer)) (p : Peer) (f : Fam) (n : Nat)
-    (hrib : ∀ g n p, (n, p) ∈ (t g).paths ↔ (g, n, p) ∈ rib) :
-    TabOp t rib (insert t p f n).1 (if rib.contains (f, n, p) then rib else rib ++ [(f, n, p)]) f
-      (insert t p f n).2 := by
-  refine ⟨fun g => ?_, fun _ g m q => ?_, fun h => by simp [insert, h], fun c hc' => ?_⟩
-  · by_cases h : g = f
-    · subst h; simp [insert]
-    · simp [insert, set_other _ _ h]
-  · by_cases hcc : (f, n, p) ∈ rib
-    · have hm : (n, p) ∈ (t f).paths := (hrib f n p).mpr hcc
-      by_cases h : g = f
-      · subst h; simp [insert, hm, hcc, hrib]
-      · simp [insert, set_other _ _ h, hcc, hrib]
-    · have hm : (n, p) ∉ (t f).paths := fun h => hcc ((hrib f n p).mp h)
-      by_cases h : g = f
-      · subst h; simp [insert, hm, hcc, hrib]
-      · simp only [insert, set_other _ _ h, hrib, List.contains_iff_mem, hcc, ↓reduceIte, List.mem_append,
-          List.mem_singleton, Prod.mk.injEq]
-        constructor
-        · exact Or.inl
-        · rintro (h' | ⟨h', _⟩)
-          · exact h'
-          · exact absurd h' h
-  · simp only [insert] at hc'
-    by_cases hd : (t f).deferring = true
-    · simp [hd] at hc'
-    · simp only [hd, Bool.false_eq_true, ↓reduceIte, List.mem_singleton] at hc'
-      subst hc'; rfl
+theorem TabOp.refl (t : Tabs) : TabOp t t [] := ⟨fun _ => rfl, fun _ h => by simp at h⟩
 
-theorem remove_op (t : Tabs) (rib : List (Fam × Nat × Peer)) (p : Peer) (f : Fam) (n : Nat)
-    (hrib : ∀ g n p, (n, p) ∈ (t g).paths ↔ (g, n, p) ∈ rib) :
-    TabOp t rib (remove t p f n).1 (rib.filter (· ≠ (f, n, p))) f (remove t p f n).2 := by
-  by_cases hm : (n, p) ∈ (t f).paths
-  · refine ⟨fun g => ?_, fun _ g m q => ?_, fun h => by simp [remove, hm, h], fun c hc' => ?_⟩
-    · by_cases h : g = f
-      · subst h; simp [remove, hm]
-      · simp [remove, hm, set_other _ _ h]
-    · by_cases h : g = f
-      · subst h
-        simp [remove, hm, hrib]
-      · simp only [remove, List.contains_iff_mem, hm, ↓reduceIte, set_other _ _ h, hrib, List.mem_filter, ne_eq,
-          decide_not, Bool.not_eq_eq_eq_not, Bool.not_true, decide_eq_false_iff_not, Prod.mk.injEq, not_and]
-        constructor
-        · intro h'; exact ⟨h', fun hh => absurd hh h⟩
-        · exact fun h' => h'.1
-    · simp only [remove, List.contains_iff_mem, hm, ↓reduceIte] at hc'
-      by_cases hd : (t f).deferring = true
-      · simp [hd] at hc'
-      · simp only [hd, Bool.false_eq_true, ↓reduceIte, List.mem_singleton] at hc'
-        subst hc'; rfl
-  · have hnm : (f, n, p) ∉ rib := fun h => hm ((hrib f n p).mpr h)
-    refine ⟨fun g => by simp [remove, hm], fun _ g m q => ?_, fun _ => by simp [remove, hm],
-      fun c hc' => by simp [remove, hm] at hc'⟩
-    simp only [remove, List.contains_iff_mem, hm, ↓reduceIte, hrib, List.mem_filter, ne_eq, decide_not,
-      Bool.not_eq_eq_eq_not, Bool.not_true, decide_eq_false_iff_not]
+theorem TabOp.trans {t t1 t2 : Tabs} {c1 c2 : List Change} (h1 : TabOp t t1 c1) (h2 : TabOp t1 t2 c2) :
+    TabOp t t2 (c1 ++ c2) := by
+  refine ⟨fun g => by rw [h2.flag, h1.flag], fun c hc => ?_⟩
+  rcases List.mem_append.mp hc with h | h
+  · exact h1.quiet c h
+  · rw [← h1.flag]; exact h2.quiet c h
+
+theorem set_apply (t : Tabs) (f g : Fam) (x : Rib) : (t.set f x) g = if g = f then x else t g := rfl
+
+/-- an operation that only rewrites the path list of one family -/
+theorem tabOp_setPaths (t : Tabs) (f : Fam) (X : List (Nat × Peer)) (changes : List Change)
+    (hq : ∀ c ∈ changes, c.fam = f ∧ (t f).deferring = false) :
+    TabOp t (t.set f { t f with paths := X }) changes := by
+  refine ⟨fun g => ?_, fun c hc => ?_⟩
+  · rw [set_apply]; by_cases h : g = f
+    · subst h; simp
+    · simp [h]
+  · obtain ⟨a, b⟩ := hq c hc; rw [a]; exact b
+
+theorem relT_setPaths {t : Tabs} {r : R} (h : RelT t r) (f : Fam) (X : List (Nat × Peer))
+    (rib' : List (Fam × Nat × Peer)) (hx : ∀ n p, (n, p) ∈ X ↔ (f, n, p) ∈ rib')
+    (ho : ∀ g n p, g ≠ f → ((g, n, p) ∈ rib' ↔ (g, n, p) ∈ r.rib)) :
+    RelT (t.set f { t f with paths := X }) { r with rib := rib' } := by
+  obtain ⟨h1, h2, h3⟩ := h
+  refine ⟨fun g n p => ?_, fun g p => ?_, fun g p => ?_⟩
+  · rw [set_apply]; by_cases hg : g = f
+    · subst hg; simpa using hx n p
+    · simp only [hg, ↓reduceIte]; rw [ho g n p hg]; exact h1 g n p
+  · rw [set_apply]; by_cases hg : g = f
+    · subst hg; simpa using h2 g p
+    · simpa [hg] using h2 g p
+  · rw [set_apply]; by_cases hg : g = f
+    · subst hg; simpa using h3 g p
+    · simpa [hg] using h3 g p
+
+theorem changes_if {b : Bool} {l : List Change} {c : Change} (h : c ∈ (if b = true then [] else l)) :
+    b = false ∧ c ∈ l := by
+  cases b with
+  | true => simp at h
+  | false => exact ⟨rfl, by simpa using h⟩
+
+/-! ### insert / remove / drop -/
+
+theorem insert_tabOp (inv : List Peer) (t : Tabs) (p : Peer) (f : Fam) (n : Nat) :
+    TabOp t (insert inv t p f n).1 (insert inv t p f n).2 := by
+  apply tabOp_setPaths
+  intro c hc
+  obtain ⟨hd, hc⟩ := changes_if hc
+  simp only [List.mem_singleton] at hc
+  exact ⟨by rw [hc], hd⟩
+
+theorem insert_relT (inv : List Peer) {t : Tabs} {r : R} (h : RelT t r) (p : Peer) (f : Fam) (n : Nat) :
+    RelT (insert inv t p f n).1 (next r (.ins p f n)) := by
+  have hrib := h.1
+  by_cases hcc : (f, n, p) ∈ r.rib
+  · have hm : (n, p) ∈ (t f).paths := (hrib f n p).mpr hcc
+    have : next r (.ins p f n) = { r with rib := r.rib } := by simp [next, hcc]
+    rw [this]
+    apply relT_setPaths h
+    · intro m q; simp [hm, hrib]
+    · intro g m q _; rfl
+  · have hm : (n, p) ∉ (t f).paths := fun h' => hcc ((hrib f n p).mp h')
+    have : next r (.ins p f n) = { r with rib := r.rib ++ [(f, n, p)] } := by simp [next, hcc]
+    rw [this]
+    apply relT_setPaths h
+    · intro m q; simp [hm, hrib]
+    · intro g m q hg
+      simp only [List.mem_append, List.mem_singleton, Prod.mk.injEq]
+      constructor
+      · rintro (h' | ⟨h', _⟩)
+        · exact h'
+        · exact absurd h' hg
+      · exact Or.inl
+
+theorem remove_tabOp (inv : List Peer) (t : Tabs) (p : Peer) (f : Fam) (n : Nat) :
+    TabOp t (remove inv t p f n).1 (remove inv t p f n).2 := by
+  unfold remove
+  by_cases hm : (t f).paths.contains (n, p) = true
+  · simp only [hm, ↓reduceIte]
+    apply tabOp_setPaths
+    intro c hc
+    obtain ⟨hd, hc⟩ := changes_if hc
+    simp only [List.mem_singleton] at hc
+    exact ⟨by rw [hc], hd⟩
+  · simp only [hm, Bool.false_eq_true, ↓reduceIte]; exact TabOp.refl t
+
+theorem remove_relT (inv : List Peer) {t : Tabs} {r : R} (h : RelT t r) (p : Peer) (f : Fam) (n : Nat) :
+    RelT (remove inv t p f n).1 (next r (.rm p f n)) := by
+  have hrib := h.1
+  have hn : next r (.rm p f n) = { r with rib := r.rib.filter (· ≠ (f, n, p)) } := rfl
+  rw [hn]
+  unfold remove
+  by_cases hm : (t f).paths.contains (n, p) = true
+  · simp only [hm, ↓reduceIte]
+    apply relT_setPaths h
+    · intro m q; simp [hrib]
+    · intro g m q hg; simp [hg]
+  · simp only [hm, Bool.false_eq_true, ↓reduceIte]
+    have hnm : (f, n, p) ∉ r.rib := fun h' => hm (by simpa using (hrib f n p).mpr h')
+    obtain ⟨h1, h2, h3⟩ := h
+    refine ⟨fun g m q => ?_, h2, h3⟩
+    rw [h1]
+    simp only [List.mem_filter, ne_eq, decide_not, Bool.not_eq_eq_eq_not, Bool.not_true, decide_eq_false_iff_not]
     constructor
-    · intro h; exact ⟨h, fun he => hnm (he ▸ h)⟩
-    · exact fun h => h.1
+    · intro h'; exact ⟨h', fun he => hnm (he ▸ h')⟩
+    · exact fun h' => h'.1
 
-theorem drop_op (t : Tabs) (rib : List (Fam × Nat × Peer)) (p : Peer) (f : Fam)
-    (hrib : ∀ g n p, (n, p) ∈ (t g).paths ↔ (g, n, p) ∈ rib) :
-    TabOp t rib (dropPeer t p f).1 (rib.filter (fun e => !(e.1 = f && e.2.2 = p))) f (dropPeer t p f).2 := by
-  refine ⟨fun g => ?_, fun _ g m q => ?_, fun h => by simp [dropPeer, h], fun c hc' => ?_⟩
-  · by_cases h : g = f
-    · subst h; simp [dropPeer]
-    · simp [dropPeer, set_other _ _ h]
-  · by_cases h : g = f
-    · subst h
-      simp [dropPeer, hrib]
-    · simp [dropPeer, set_other _ _ h, hrib, h]
-  · simp only [dropPeer] at hc'
-    by_cases hd : (t f).deferring = true
-    · simp [hd] at hc'
-    · simp only [hd, Bool.false_eq_true, ↓reduceIte, List.mem_map] at hc'
-      obtain ⟨n, _, rfl⟩ := hc'; rfl
+theorem dropPeer_tabOp (inv : List Peer) (t : Tabs) (p : Peer) (f : Fam) :
+    TabOp t (dropPeer inv t p f).1 (dropPeer inv t p f).2 := by
+  apply tabOp_setPaths
+  intro c hc
+  obtain ⟨hd, hc⟩ := changes_if hc
+  simp only [List.mem_map] at hc
+  obtain ⟨m, _, rfl⟩ := hc
+  simp only [Bool.or_eq_false_iff] at hd
+  exact ⟨rfl, hd.1⟩
 
-/-- a RIB mutation is accepted by the checker and keeps the relation -/
-theorem step_tab {cfg : Cfg} {s : St} {r : R} (hr : Rel cfg s r) (e : Ev) (f : Fam) (t' : Tabs)
-    (changes : List Change) (hne : isRd e = false)
-    (hw : (next r e).waiting = r.waiting) (hd : (next r e).deferred = r.deferred)
-    (hrl : (next r e).released = r.released) (hs : (next r e).started = r.started)
-    (hu : (next r e).up = r.up)
-    (hop : TabOp s.tabs r.rib t' (next r e).rib f changes) :
-    let o : Obs := { outs := [], changes := changes,
-                     tag := match s.sd with | some m => tagOf m | none => .absent,
-                     pending := match s.sd with | some m => pendingOf m | none => [],
-                     installed := s.sd.isSome, flags := flagsOf t' s.univ, timer := s.timer }
-    stepOk cfg (some e) r (next r e) o = .ok () ∧ Rel cfg { s with tabs := t' } (advance cfg r e) := by
-  intro o
-  have ht : (next r e).timer = r.timer := next_timer r e
+theorem dropPeer_relT (inv : List Peer) {t : Tabs} {r : R} (h : RelT t r) (p : Peer) (f : Fam) :
+    RelT (dropPeer inv t p f).1 (dropRoutes r p f) := by
+  have hrib := h.1
+  unfold dropRoutes
+  apply relT_setPaths h
+  · intro m q; simp [hrib]
+  · intro g m q hg; simp [hg]
+
+/-! ### stale marks -/
+
+theorem mem_touched {paths : List (Nat × Peer)} {p : Peer} :
+    (prefixes (paths.filter (fun e => e.2 = p))).isEmpty = false ↔ ∃ n, (n, p) ∈ paths := by
+  cases hpe : prefixes (paths.filter (fun e => e.2 = p)) with
+  | nil =>
+      simp only [List.isEmpty_nil, Bool.true_eq_false, false_iff, not_exists]
+      intro n hn
+      have : n ∈ prefixes (paths.filter (fun e => e.2 = p)) :=
+        mem_prefixes.mpr ⟨p, List.mem_filter.mpr ⟨hn, by simp⟩⟩
+      rw [hpe] at this; simp at this
+  | cons a l =>
+      simp only [List.isEmpty_cons, true_iff]
+      have : a ∈ prefixes (paths.filter (fun e => e.2 = p)) := by rw [hpe]; simp
+      obtain ⟨q, hq⟩ := mem_prefixes.mp this
+      simp only [List.mem_filter, decide_eq_true_eq] at hq
+      exact ⟨a, hq.2 ▸ hq.1⟩
+
+theorem ribAny_iff {rib : List (Fam × Nat × Peer)} {f : Fam} {p : Peer} :
+    rib.any (fun e => e.1 = f && e.2.2 = p) = true ↔ ∃ n, (f, n, p) ∈ rib := by
+  simp only [List.any_eq_true, Bool.and_eq_true, decide_eq_true_eq]
+  constructor
+  · rintro ⟨⟨g, n, q⟩, he, rfl, rfl⟩; exact ⟨n, he⟩
+  · rintro ⟨n, hn⟩; exact ⟨(f, n, p), hn, rfl, rfl⟩
+
+theorem tabOp_setMark (t : Tabs) (f : Fam) (x : Rib) (changes : List Change)
+    (hx : x.deferring = (t f).deferring) (hq : ∀ c ∈ changes, c.fam = f ∧ (t f).deferring = false) :
+    TabOp t (t.set f x) changes := by
+  refine ⟨fun g => ?_, fun c hc => ?_⟩
+  · rw [set_apply]; by_cases h : g = f
+    · subst h; simpa using hx
+    · simp [h]
+  · obtain ⟨a, b⟩ := hq c hc; rw [a]; exact b
+
+theorem relT_sameMarks {t : Tabs} {r : R} (h : RelT t r) (f : Fam) (x : Rib)
+    (hp : x.paths = (t f).paths) (hs : x.stale = (t f).stale) (hl : x.llgr = (t f).llgr) :
+    RelT (t.set f x) r := by
+  obtain ⟨h1, h2, h3⟩ := h
+  refine ⟨fun g n q => ?_, fun g q => ?_, fun g q => ?_⟩ <;> rw [set_apply] <;> by_cases hg : g = f
+  · subst hg; simp only [↓reduceIte, hp]; exact h1 g n q
+  · simp only [hg, ↓reduceIte]; exact h1 g n q
+  · subst hg; simp only [↓reduceIte, hs]; exact h2 g q
+  · simp only [hg, ↓reduceIte]; exact h2 g q
+  · subst hg; simp only [↓reduceIte, hl]; exact h3 g q
+  · simp only [hg, ↓reduceIte]; exact h3 g q
+
+theorem relT_addStale {t : Tabs} {r : R} (h : RelT t r) (f : Fam) (p : Peer) :
+    RelT (t.set f { t f with stale := p :: (t f).stale }) { r with stale := (f, p) :: r.stale } := by
+  obtain ⟨h1, h2, h3⟩ := h
+  refine ⟨fun g n q => ?_, fun g q => ?_, fun g q => ?_⟩ <;> rw [set_apply] <;> by_cases hg : g = f
+  · subst hg; simp only [↓reduceIte]; exact h1 g n q
+  · simp only [hg, ↓reduceIte]; exact h1 g n q
+  · subst hg; simp only [↓reduceIte, List.mem_cons, Prod.mk.injEq, true_and]; rw [h2]
+  · simp only [hg, ↓reduceIte, List.mem_cons, Prod.mk.injEq, false_and, false_or]; exact h2 g q
+  · subst hg; simp only [↓reduceIte]; exact h3 g q
+  · simp only [hg, ↓reduceIte]; exact h3 g q
+
+theorem relT_addLlgr {t : Tabs} {r : R} (h : RelT t r) (f : Fam) (p : Peer) :
+    RelT (t.set f { t f with llgr := p :: (t f).llgr }) { r with llgr := (f, p) :: r.llgr } := by
+  obtain ⟨h1, h2, h3⟩ := h
+  refine ⟨fun g n q => ?_, fun g q => ?_, fun g q => ?_⟩ <;> rw [set_apply] <;> by_cases hg : g = f
+  · subst hg; simp only [↓reduceIte]; exact h1 g n q
+  · simp only [hg, ↓reduceIte]; exact h1 g n q
+  · subst hg; simp only [↓reduceIte]; exact h2 g q
+  · simp only [hg, ↓reduceIte]; exact h2 g q
+  · subst hg; simp only [↓reduceIte, List.mem_cons, Prod.mk.injEq, true_and]; rw [h3]
+  · simp only [hg, ↓reduceIte, List.mem_cons, Prod.mk.injEq, false_and, false_or]; exact h3 g q
+
+theorem touched_cases (paths : List (Nat × Peer)) (p : Peer) :
+    ((prefixes (paths.filter (fun e => e.2 = p))).isEmpty = true ∧ ¬ ∃ n, (n, p) ∈ paths) ∨
+    ((prefixes (paths.filter (fun e => e.2 = p))).isEmpty = false ∧ ∃ n, (n, p) ∈ paths) := by
+  cases hh : (prefixes (paths.filter (fun e => e.2 = p))).isEmpty with
+  | true =>
+      left; refine ⟨rfl, fun hex => ?_⟩
+      have := mem_touched.mpr hex; rw [hh] at this; cases this
+  | false => right; exact ⟨rfl, mem_touched.mp hh⟩
+
+theorem restale_eq (inv : List Peer) (t : Tabs) (p : Peer) (f : Fam) :
+    (¬ (∃ n, (n, p) ∈ (t f).paths) ∧ restale inv t p f = (t, [])) ∨
+    ((∃ n, (n, p) ∈ (t f).paths) ∧
+      restale inv t p f =
+        (t.set f { t f with stale := if (t f).stale.contains p then (t f).stale else p :: (t f).stale },
+         if (t f).deferring then []
+         else (prefixes ((t f).paths.filter (fun e => e.2 = p))).map
+           (fun n => { fam := f, pfx := n, peers := peersOf n (usable inv (t f).paths) }))) := by
+  rcases touched_cases (t f).paths p with ⟨h, hn⟩ | ⟨h, hn⟩
+  · left; exact ⟨hn, by simp [restale, h]⟩
+  · right; exact ⟨hn, by simp [restale, h]⟩
+
+theorem restaleLlgr_eq (inv : List Peer) (t : Tabs) (p : Peer) (f : Fam) :
+    (¬ (∃ n, (n, p) ∈ (t f).paths) ∧ restaleLlgr inv t p f = (t, [])) ∨
+    ((∃ n, (n, p) ∈ (t f).paths) ∧
+      restaleLlgr inv t p f =
+        (t.set f { t f with llgr := if (t f).llgr.contains p then (t f).llgr else p :: (t f).llgr },
+         if (t f).deferring then []
+         else (prefixes ((t f).paths.filter (fun e => e.2 = p))).map
+           (fun n => { fam := f, pfx := n, peers := peersOf n (usable inv (t f).paths) }))) := by
+  rcases touched_cases (t f).paths p with ⟨h, hn⟩ | ⟨h, hn⟩
+  · left; exact ⟨hn, by simp [restaleLlgr, h]⟩
+  · right; exact ⟨hn, by simp [restaleLlgr, h]⟩
+
+theorem restale_tabOp (inv : List Peer) (t : Tabs) (p : Peer) (f : Fam) :
+    TabOp t (restale inv t p f).1 (restale inv t p f).2 := by
+  rcases restale_eq inv t p f with ⟨_, h⟩ | ⟨_, h⟩ <;> rw [h]
+  · exact TabOp.refl t
+  · show TabOp t (t.set f _) (if _ then _ else _)
+    refine tabOp_setMark t f _ _ rfl ?_
+    intro c hc
+    obtain ⟨hd, hc⟩ := changes_if hc
+    simp only [List.mem_map] at hc
+    obtain ⟨m, _, rfl⟩ := hc
+    exact ⟨rfl, hd⟩
+
+theorem restaleLlgr_tabOp (inv : List Peer) (t : Tabs) (p : Peer) (f : Fam) :
+    TabOp t (restaleLlgr inv t p f).1 (restaleLlgr inv t p f).2 := by
+  rcases restaleLlgr_eq inv t p f with ⟨_, h⟩ | ⟨_, h⟩ <;> rw [h]
+  · exact TabOp.refl t
+  · show TabOp t (t.set f _) (if _ then _ else _)
+    refine tabOp_setMark t f _ _ rfl ?_
+    intro c hc
+    obtain ⟨hd, hc⟩ := changes_if hc
+    simp only [List.mem_map] at hc
+    obtain ⟨m, _, rfl⟩ := hc
+    exact ⟨rfl, hd⟩
+
+theorem ribAny_of_relT {t : Tabs} {r : R} (h : RelT t r) (f : Fam) (p : Peer) :
+    r.rib.any (fun e => e.1 = f && e.2.2 = p) = true ↔ ∃ n, (n, p) ∈ (t f).paths := by
+  rw [ribAny_iff]
+  constructor
+  · rintro ⟨n, hn⟩; exact ⟨n, (h.1 f n p).mpr hn⟩
+  · rintro ⟨n, hn⟩; exact ⟨n, (h.1 f n p).mp hn⟩
+
+theorem restale_relT (inv : List Peer) {t : Tabs} {r : R} (h : RelT t r) (p : Peer) (f : Fam) :
+    RelT (restale inv t p f).1 (markStale r p f) := by
+  rcases restale_eq inv t p f with ⟨hn, he⟩ | ⟨hn, he⟩ <;> rw [he]
+  · have hra : r.rib.any (fun e => e.1 = f && e.2.2 = p) = false := by
+      cases hh : r.rib.any (fun e => e.1 = f && e.2.2 = p) with
+      | false => rfl
+      | true => exact absurd ((ribAny_of_relT h f p).mp hh) hn
+    have : markStale r p f = r := by simp [markStale, hra]
+    rw [this]; exact h
+  · have hra := (ribAny_of_relT h f p).mpr hn
+    by_cases hs : p ∈ (t f).stale
+    · have hs' : (f, p) ∈ r.stale := (h.2.1 f p).mp hs
+      have : markStale r p f = r := by simp [markStale, hs']
+      rw [this]
+      exact relT_sameMarks h f _ rfl (by simp [hs]) rfl
+    · have hs' : (f, p) ∉ r.stale := fun h' => hs ((h.2.1 f p).mpr h')
+      have : markStale r p f = { r with stale := (f, p) :: r.stale } := by simp [markStale, hra, hs']
+      rw [this]
+      have hc : (t f).stale.contains p = false := by simpa using hs
+      simp only [hc, Bool.false_eq_true, ↓reduceIte]
+      exact relT_addStale h f p
+
+theorem restaleLlgr_relT (inv : List Peer) {t : Tabs} {r : R} (h : RelT t r) (p : Peer) (f : Fam) :
+    RelT (restaleLlgr inv t p f).1 (next r (.llgr p f)) := by
+  rcases restaleLlgr_eq inv t p f with ⟨hn, he⟩ | ⟨hn, he⟩ <;> rw [he]
+  · have hra : r.rib.any (fun e => e.1 = f && e.2.2 = p) = false := by
+      cases hh : r.rib.any (fun e => e.1 = f && e.2.2 = p) with
+      | false => rfl
+      | true => exact absurd ((ribAny_of_relT h f p).mp hh) hn
+    have : next r (.llgr p f) = r := by simp [next, hra]
+    rw [this]; exact h
+  · have hra := (ribAny_of_relT h f p).mpr hn
+    by_cases hs : p ∈ (t f).llgr
+    · have hs' : (f, p) ∈ r.llgr := (h.2.2 f p).mp hs
+      have : next r (.llgr p f) = r := by simp [next, hs']
+      rw [this]
+      exact relT_sameMarks h f _ rfl rfl (by simp [hs])
+    · have hs' : (f, p) ∉ r.llgr := fun h' => hs ((h.2.2 f p).mpr h')
+      have : next r (.llgr p f) = { r with llgr := (f, p) :: r.llgr } := by simp [next, hra, hs']
+      rw [this]
+      have hc : (t f).llgr.contains p = false := by simpa using hs
+      simp only [hc, Bool.false_eq_true, ↓reduceIte]
+      exact relT_addLlgr h f p
+
+theorem purge_tabOp (b : Bool) (inv : List Peer) (t : Tabs) (p : Peer) (f : Fam) :
+    TabOp t (purge b inv t p f).1 (purge b inv t p f).2 := by
+  unfold purge
+  cases b with
+  | true => exact dropPeer_tabOp inv t p f
+  | false => exact TabOp.refl t
+
+/-! ### next-hop validity -/
+
+theorem nhv_quiet (inv' : List Peer) (t : Tabs) (p : Peer) (u : List Fam) :
+    ∀ c ∈ u.flatMap (nhvFam inv' t p), (t c.fam).deferring = false := by
+  intro c hc
+  simp only [List.mem_flatMap] at hc
+  obtain ⟨f, _, hc⟩ := hc
+  unfold nhvFam at hc
+  obtain ⟨hd, hc⟩ := changes_if hc
+  simp only [List.mem_map] at hc
+  obtain ⟨m, _, rfl⟩ := hc
+  exact hd
+
+/-! ### `unregister_peer` as `finish_session` calls it -/
+
+/-- the reference's step for one family of the ended session -/
+def gstep (gr : List Fam) (p : Peer) (r : R) (f : Fam) : R :=
+  if gr.contains f then markStale r p f else dropRoutes r p f
+
+theorem unregister_tabOp (inv : List Peer) (p : Peer) (gr : List Fam) (fs : List Fam) (t : Tabs) :
+    TabOp t (unregister inv p gr fs t).1 (unregister inv p gr fs t).2 := by
+  induction fs generalizing t with
+  | nil => exact TabOp.refl t
+  | cons f fs ih =>
+      simp only [unregister]
+      refine TabOp.trans ?_ (ih _)
+      split
+      · exact restale_tabOp inv t p f
+      · exact dropPeer_tabOp inv t p f
+
+theorem unregister_relT (inv : List Peer) (p : Peer) (gr : List Fam) (fs : List Fam) {t : Tabs} {r : R}
+    (h : RelT t r) : RelT (unregister inv p gr fs t).1 (fs.foldl (gstep gr p) r) := by
+  induction fs generalizing t r with
+  | nil => exact h
+  | cons f fs ih =>
+      simp only [unregister, List.foldl_cons]
+      apply ih
+      unfold gstep
+      split
+      · exact restale_relT inv h p f
+      · exact dropPeer_relT inv h p f
+
+/-- the reference fields a route-only step leaves alone -/
+structure SameCtl (r r' : R) : Prop where
+  waiting : r'.waiting = r.waiting
+  deferred : r'.deferred = r.deferred
+  released : r'.released = r.released
+  started : r'.started = r.started
+  timer : r'.timer = r.timer
+  up : ∀ x ∈ r'.up, x ∈ r.up
+
+theorem SameCtl.refl (r : R) : SameCtl r r := ⟨rfl, rfl, rfl, rfl, rfl, fun _ h => h⟩
+
+theorem SameCtl.trans {a b c : R} (h1 : SameCtl a b) (h2 : SameCtl b c) : SameCtl a c :=
+  ⟨h2.waiting.trans h1.waiting, h2.deferred.trans h1.deferred, h2.released.trans h1.released,
+   h2.started.trans h1.started, h2.timer.trans h1.timer, fun x hx => h1.up x (h2.up x hx)⟩
+
+theorem markStale_ctl (r : R) (p : Peer) (f : Fam) : SameCtl r (markStale r p f) := by
+  unfold markStale; split
+  · exact ⟨rfl, rfl, rfl, rfl, rfl, fun _ h => h⟩
+  · exact SameCtl.refl r
+
+theorem dropRoutes_ctl (r : R) (p : Peer) (f : Fam) : SameCtl r (dropRoutes r p f) :=
+  ⟨rfl, rfl, rfl, rfl, rfl, fun _ h => h⟩
+
+theorem markStale_inv (r : R) (p : Peer) (f : Fam) :
+    (markStale r p f).invalid = r.invalid ∧ (markStale r p f).up = r.up := by
+  unfold markStale; split <;> exact ⟨rfl, rfl⟩
+
+theorem gstep_ctl (gr : List Fam) (p : Peer) (r : R) (f : Fam) :
+    SameCtl r (gstep gr p r f) ∧ (gstep gr p r f).invalid = r.invalid ∧ (gstep gr p r f).up = r.up := by
+  unfold gstep; split
+  · exact ⟨markStale_ctl r p f, markStale_inv r p f⟩
+  · exact ⟨dropRoutes_ctl r p f, rfl, rfl⟩
+
+theorem foldl_gstep_ctl (gr : List Fam) (p : Peer) (fs : List Fam) (r : R) :
+    SameCtl r (fs.foldl (gstep gr p) r) ∧ (fs.foldl (gstep gr p) r).invalid = r.invalid ∧
+      (fs.foldl (gstep gr p) r).up = r.up := by
+  induction fs generalizing r with
+  | nil => exact ⟨SameCtl.refl r, rfl, rfl⟩
+  | cons f fs ih =>
+      obtain ⟨a, b, c⟩ := gstep_ctl gr p r f
+      obtain ⟨a', b', c'⟩ := ih (gstep gr p r f)
+      exact ⟨a.trans a', b'.trans b, c'.trans c⟩
+
+theorem next_gdown (r : R) (p : Peer) :
+    next r (.gdown p) = match upFams r p with
+      | none => r
+      | some gr => { (sessionFams.foldl (gstep gr p) r) with
+                     up := (sessionFams.foldl (gstep gr p) r).up.filter (fun e => e.1 ≠ p) } := by
+  simp only [next]
+  cases upFams r p <;> rfl
+
+/-- what a route-only event leaves alone in the reference -/
+theorem next_ctl (r : R) (e : Ev) (h : isRd e = false) : SameCtl r (next r e) := by
+  cases e with
+  | rd i => simp [isRd] at h
+  | ins p f n => simp only [next]; split <;> exact ⟨rfl, rfl, rfl, rfl, rfl, fun _ h => h⟩
+  | rm p f n => exact ⟨rfl, rfl, rfl, rfl, rfl, fun _ h => h⟩
+  | drop p f => exact dropRoutes_ctl r p f
+  | stale p f => exact markStale_ctl r p f
+  | llgr p f => simp only [next]; split <;> exact ⟨rfl, rfl, rfl, rfl, rfl, fun _ h => h⟩
+  | purge p f => simp only [next]; split; exact dropRoutes_ctl r p f; exact SameCtl.refl r
+  | lpurge p f => simp only [next]; split; exact dropRoutes_ctl r p f; exact SameCtl.refl r
+  | nhv p ok => simp only [next]; split <;> exact ⟨rfl, rfl, rfl, rfl, rfl, fun _ h => h⟩
+  | gdown p =>
+      rw [next_gdown]
+      cases upFams r p with
+      | none => exact SameCtl.refl r
+      | some gr =>
+          obtain ⟨a, _, c⟩ := foldl_gstep_ctl gr p sessionFams r
+          refine ⟨a.waiting, a.deferred, a.released, a.started, a.timer, fun x hx => ?_⟩
+          simp only [List.mem_filter] at hx
+          exact a.up x hx.1
+
+/-- every route-only event of the model is a `TabOp`, observed with no machine output -/
+theorem step_tabOp (s : St) (e : Ev) (h : isRd e = false) :
+    TabOp s.tabs (step s e).1.tabs (step s e).2.changes ∧
+    (step s e).2 = obsOf (step s e).1 [] (step s e).2.changes ∧
+    (step s e).1.sd = s.sd ∧ (step s e).1.univ = s.univ ∧ (step s e).1.timer = s.timer := by
+  cases e with
+  | rd i => simp [isRd] at h
+  | ins p f n => exact ⟨insert_tabOp _ _ _ _ _, rfl, rfl, rfl, rfl⟩
+  | rm p f n => exact ⟨remove_tabOp _ _ _ _ _, rfl, rfl, rfl, rfl⟩
+  | drop p f => exact ⟨dropPeer_tabOp _ _ _ _, rfl, rfl, rfl, rfl⟩
+  | stale p f => exact ⟨restale_tabOp _ _ _ _, rfl, rfl, rfl, rfl⟩
+  | llgr p f => exact ⟨restaleLlgr_tabOp _ _ _ _, rfl, rfl, rfl, rfl⟩
+  | purge p f => exact ⟨purge_tabOp _ _ _ _ _, rfl, rfl, rfl, rfl⟩
+  | lpurge p f => exact ⟨purge_tabOp _ _ _ _ _, rfl, rfl, rfl, rfl⟩
+  | nhv p ok =>
+      simp only [step]
+      split
+      · exact ⟨TabOp.refl _, rfl, rfl, rfl, rfl⟩
+      · exact ⟨⟨fun _ => rfl, nhv_quiet _ _ _ _⟩, rfl, rfl, rfl, rfl⟩
+  | gdown p =>
+      simp only [step]
+      cases sessOf s.up p with
+      | none => exact ⟨TabOp.refl _, rfl, rfl, rfl, rfl⟩
+      | some gr => exact ⟨unregister_tabOp _ _ _ _ _, rfl, rfl, rfl, rfl⟩
+
+/-- ... and keeps the tables in step with the reference's view -/
+theorem step_relT {cfg : Cfg} {s : St} {r : R} (hr : Rel cfg s r) (e : Ev) (h : isRd e = false) :
+    RelT (step s e).1.tabs (next r e) ∧ (step s e).1.invalid = (next r e).invalid ∧
+    (step s e).1.up = (next r e).up := by
+  have hT := hr.relT
+  have hinv := hr.invalid
+  have hup := hr.up
+  cases e with
+  | rd i => simp [isRd] at h
+  | ins p f n =>
+      refine ⟨insert_relT s.invalid hT p f n, ?_, ?_⟩ <;> simp only [step, next] <;> split <;> assumption
+  | rm p f n => exact ⟨remove_relT s.invalid hT p f n, hinv, hup⟩
+  | drop p f => exact ⟨dropPeer_relT s.invalid hT p f, hinv, hup⟩
+  | stale p f =>
+      refine ⟨restale_relT s.invalid hT p f, ?_, ?_⟩
+      · exact hinv.trans (markStale_inv r p f).1.symm
+      · exact hup.trans (markStale_inv r p f).2.symm
+  | llgr p f =>
+      refine ⟨restaleLlgr_relT s.invalid hT p f, ?_, ?_⟩ <;> simp only [step, next] <;> split <;> assumption
+  | purge p f =>
+      have hb : (s.tabs f).stale.contains p = r.stale.contains (f, p) := by
+        rw [Bool.eq_iff_iff]; simp only [List.contains_iff_mem]; exact hr.stale f p
+      simp only [step, next, hb]
+      cases r.stale.contains (f, p) with
+      | true => exact ⟨dropPeer_relT s.invalid hT p f, hinv, hup⟩
+      | false => exact ⟨hT, hinv, hup⟩
+  | lpurge p f =>
+      have hb : (s.tabs f).llgr.contains p = r.llgr.contains (f, p) := by
+        rw [Bool.eq_iff_iff]; simp only [List.contains_iff_mem]; exact hr.llgr f p
+      simp only [step, next, hb]
+      cases r.llgr.contains (f, p) with
+      | true => exact ⟨dropPeer_relT s.invalid hT p f, hinv, hup⟩
+      | false => exact ⟨hT, hinv, hup⟩
+  | nhv p ok =>
+      simp only [step, next, hinv]
+      split
+      · exact ⟨hT, hinv, hup⟩
+      · exact ⟨hT, rfl, hup⟩
+  | gdown p =>
+      rw [next_gdown]
+      have hs : sessOf s.up p = upFams r p := by rw [hup]; rfl
+      simp only [step, hs]
+      cases upFams r p with
+      | none => exact ⟨hT, hinv, hup⟩
+      | some gr =>
+          obtain ⟨_, b, c⟩ := foldl_gstep_ctl gr p sessionFams r
+          refine ⟨?_, ?_, ?_⟩
+          · exact unregister_relT s.invalid p gr sessionFams hT
+          · simp only; rw [b]; exact hinv
+          · simp only; rw [c, hup]
+
+/-- a route-only event is accepted by the checker and keeps the relation -/
+theorem step_tab {cfg : Cfg} {s : St} {r : R} (hr : Rel cfg s r) (e : Ev) (hne : isRd e = false) :
+    stepOk cfg (some e) r (next r e) (step s e).2 = .ok () ∧ Rel cfg (step s e).1 (advance cfg r e) := by
+  obtain ⟨hop, hobs, hsd', huniv', htimer'⟩ := step_tabOp s e hne
+  obtain ⟨hT', hinv', hup'⟩ := step_relT hr e hne
+  obtain ⟨hw, hd, hrl, hs, ht, hu⟩ := next_ctl r e hne
+  rw [hobs]
+  generalize (step s e).2.changes = changes at hop ⊢
+  generalize (step s e).1 = s' at *
   have hnorel : releasedNow r (next r e) = [] := by
     apply eq_nil_of_forall_not_mem
     intro g hg
@@ -680,21 +1123,19 @@ theorem step_tab {cfg : Cfg} {s : St} {r : R} (hr : Rel cfg s r) (e : Ev) (f : F
   have htr : ∀ q, tracked (next r e) q = tracked r q := by intro q; simp [tracked, hw]
   refine ⟨stepOk_ok ?_ ?_ (by simp [hnorel]) (by simp [hnorel]) ?_ ?_ ?_ ?_ ?_ ?_ ?_ ?_ (fun h => by cases h), ?_⟩
   · intro c hc hh
-    have hcf := hop.fam c hc
-    have : (s.tabs f).deferring = true := by rw [hr.flags, ← hcf]; exact hh
-    have := hop.silent this
-    simp only [o] at hc; rw [this] at hc; simp at hc
+    have := hop.quiet c (by simpa [obsOf] using hc)
+    rw [hr.flags, hh] at this; cases this
   · intro g hg hh _
-    exact ⟨mem_flagsOf.mpr ⟨hr.univ g hg, by rw [hop.flag, hr.flags]; exact hh⟩, by simp [o, mentions]⟩
+    exact ⟨mem_flagsOf.mpr ⟨huniv' ▸ hr.univ g hg, by rw [hop.flag, hr.flags]; exact hh⟩, by simp [obsOf, mentions]⟩
   · intro g _ _
-    refine ⟨by simp [o, mentions], fun h => ?_⟩
+    refine ⟨by simp [obsOf, mentions], fun h => ?_⟩
     simp [hne] at h
   · intro x hx
     cases hsd : s.sd with
-    | none => simp [o, hsd] at hx
+    | none => simp [obsOf, hsd', hsd] at hx
     | some m =>
         obtain ⟨_, hwf, _, hp, _⟩ := hr.sd_some m hsd
-        simp only [o, hsd] at hx
+        simp only [obsOf, hsd', hsd] at hx
         have hset := hwf.sets x hx
         refine ⟨?_, hset.1⟩
         rw [htr]
@@ -704,60 +1145,51 @@ theorem step_tab {cfg : Cfg} {s : St} {r : R} (hr : Rel cfg s r) (e : Ev) (f : F
             exact tracked_iff.mpr ⟨g, (hp _).mp (mem_pairs.mpr ⟨x.2, hx, by simp [hs']⟩)⟩
   · intro ht'
     cases hsd : s.sd with
-    | none => simp [o, hsd] at ht'
-    | some m => obtain ⟨_, _, hne', _, _⟩ := hr.sd_some m hsd; simpa [o, hsd] using hne'
+    | none => simp [obsOf, hsd', hsd] at ht'
+    | some m => obtain ⟨_, _, hne', _, _⟩ := hr.sd_some m hsd; simpa [obsOf, hsd', hsd] using hne'
   · intro hwn
     rw [hw] at hwn
     cases hsd : s.sd with
-    | none => simp [o, hsd]
+    | none => simp [obsOf, hsd', hsd]
     | some m => exact absurd hwn (waiting_ne_nil hr hsd)
   · cases hsd : s.sd with
-    | none => simp [o, hsd]
+    | none => simp [obsOf, hsd', hsd]
     | some m =>
         obtain ⟨hmc, _⟩ := hr.sd_some m hsd
-        simp only [o, hsd]
+        simp only [obsOf, hsd', hsd]
         cases m <;> simp_all [tagOf]
   · intro hwn
     rw [hw] at hwn
     cases hsd : s.sd with
     | none => exact absurd (hr.sd_none hsd) hwn
-    | some m => exact ⟨by simp only [o, hsd]; exact tagOf_ne_absent m, by simp [o, hsd]⟩
-  · simp only [o, hs]
+    | some m => exact ⟨by simp only [obsOf, hsd', hsd]; exact tagOf_ne_absent m, by simp [obsOf, hsd', hsd]⟩
+  · simp only [obsOf, hs]
     cases r.started <;> simp
-  · simp only [o]; rw [htA]; exact hr.timer
+  · simp only [obsOf]; rw [htA, htimer']; exact hr.timer
   · rw [hadv]
-    refine ⟨fun m hm => ?_, fun hn => by rw [hw]; exact hr.sd_none hn, fun g => ?_, hop.rib hr.rib, fun g => ?_,
-      fun hns x hx => ?_, fun g hg => hr.univ g (hd ▸ hg), (by rw [ht]; exact hr.timer),
-      (fun h => by rw [ht] at h; rw [hw]; exact hr.timer_wait h), hr.dur⟩
-    · obtain ⟨a, b, c, d, e'⟩ := hr.sd_some m hm
+    refine ⟨fun m hm => ?_, fun hn => by rw [hw]; exact hr.sd_none (hsd' ▸ hn), fun g => ?_, hT'.1, fun g => ?_,
+      fun hns x hx => ?_, fun g hg => huniv' ▸ hr.univ g (hd ▸ hg), (by rw [ht, htimer']; exact hr.timer),
+      (fun h => by rw [ht] at h; rw [hw]; exact hr.timer_wait h), (fun pend d h => hr.dur pend d (hsd' ▸ h)),
+      hT'.2.1, hT'.2.2, hinv', hup'⟩
+    · obtain ⟨a, b, c, d, e'⟩ := hr.sd_some m (hsd' ▸ hm)
       exact ⟨a, b, c, fun x => by rw [hw]; exact d x, by rw [hs]; exact e'⟩
-    · show (t' g).deferring = _
-      rw [hop.flag, hheld]; exact hr.flags g
+    · rw [hop.flag, hheld]; exact hr.flags g
     · rw [hheld, hw]; exact hr.held_iff g
-    · rw [htr]; exact hr.up_inv (hs ▸ hns) x (hu ▸ hx)
+    · rw [htr]; exact hr.up_inv (hs ▸ hns) x (hu x hx)
 
 theorem step_ok {cfg : Cfg} {s : St} {r : R} (hr : Rel cfg s r) (e : Ev) (hwf : wf cfg r e = true) :
     stepOk cfg (some e) r (next r e) (step s e).2 = .ok () ∧ Rel cfg (step s e).1 (advance cfg r e) := by
   cases e with
   | rd i => exact step_rd hr i hwf
-  | ins p f n =>
-      have h := step_tab hr (.ins p f n) f (insert s.tabs p f n).1 (insert s.tabs p f n).2 rfl
-        (by simp only [next]; split <;> rfl) (by simp only [next]; split <;> rfl)
-        (by simp only [next]; split <;> rfl) (by simp only [next]; split <;> rfl)
-        (by simp only [next]; split <;> rfl)
-        (by
-          have := insert_op s.tabs r.rib p f n hr.rib
-          simp only [next]
-          by_cases hc : (f, n, p) ∈ r.rib
-          · simpa [hc] using this
-          · simpa [hc] using this)
-      exact h
-  | rm p f n =>
-      exact step_tab hr (.rm p f n) f (remove s.tabs p f n).1 (remove s.tabs p f n).2 rfl rfl rfl rfl rfl rfl
-        (remove_op s.tabs r.rib p f n hr.rib)
-  | drop p f =>
-      exact step_tab hr (.drop p f) f (dropPeer s.tabs p f).1 (dropPeer s.tabs p f).2 rfl rfl rfl rfl rfl rfl
-        (drop_op s.tabs r.rib p f hr.rib)
+  | ins p f n => exact step_tab hr _ rfl
+  | rm p f n => exact step_tab hr _ rfl
+  | drop p f => exact step_tab hr _ rfl
+  | stale p f => exact step_tab hr _ rfl
+  | llgr p f => exact step_tab hr _ rfl
+  | purge p f => exact step_tab hr _ rfl
+  | lpurge p f => exact step_tab hr _ rfl
+  | nhv p ok => exact step_tab hr _ rfl
+  | gdown p => exact step_tab hr _ rfl
 
 /-! ## start-up -/
 
@@ -838,13 +1270,15 @@ theorem mem_pairs_mkPending {l : List (Peer × List Fam)} {x : Peer × Fam} :
 
 theorem startDeferralFamilies_spec (fs : List Fam) (t : Tabs) (g : Fam) :
     ((startDeferralFamilies fs t) g).deferring = (fs.contains g || (t g).deferring) ∧
-    ((startDeferralFamilies fs t) g).paths = (t g).paths := by
+    ((startDeferralFamilies fs t) g).paths = (t g).paths ∧
+    ((startDeferralFamilies fs t) g).stale = (t g).stale ∧
+    ((startDeferralFamilies fs t) g).llgr = (t g).llgr := by
   induction fs generalizing t with
   | nil => simp [startDeferralFamilies]
   | cons f fs ih =>
       have := ih (startDeferral t f)
       simp only [startDeferralFamilies, List.foldl_cons] at this ⊢
-      rw [this.1, this.2]
+      rw [this.1, this.2.1, this.2.2.1, this.2.2.2]
       by_cases h : g = f
       · subst h; simp [startDeferral]
       · simp [startDeferral, set_other _ _ h, h]
@@ -895,7 +1329,7 @@ theorem init_ok (cfg : Cfg) :
       (fun _ f hf => by rw [hdef, hw0] at hf; simp at hf), ?_⟩
     refine ⟨fun m hm => by simp at hm, fun _ => hw0, fun f => ?_, fun f n p => by simp [Spec.init], fun f => by rw [hheld],
       fun _ e he => by simp [Spec.init] at he, huniv, htm0.symm, (fun h => by rw [htm0] at h; cases h),
-      (fun pend d h => by simp at h)⟩
+      (fun pend d h => by simp at h), (fun f p => by simp [Spec.init]), (fun f p => by simp [Spec.init]), rfl, rfl⟩
     rw [hheld, hw0]; rfl
   · have hne : mkPending cfg.peers ≠ [] := fun h => hem (isEmpty_iff_nil.mpr h)
     have hio : initObs cfg =
@@ -935,11 +1369,13 @@ theorem init_ok (cfg : Cfg) :
       simp [held, hrel0, hf]
     · refine ⟨fun m hm => ?_, fun h => by simp at h, hflag, fun f n p => ?_, fun f => by rw [hheld],
         fun _ e he => by simp [Spec.init] at he, huniv, htm0.symm, (fun h => by rw [htm0] at h; cases h),
-        (fun pend d h => ?_)⟩
+        (fun pend d h => ?_),
+        (fun f p => by simp only; rw [(startDeferralFamilies_spec _ _ f).2.2.1]; simp [Spec.init]),
+        (fun f p => by simp only; rw [(startDeferralFamilies_spec _ _ f).2.2.2]; simp [Spec.init]), rfl, rfl⟩
       · simp only [Option.some.injEq] at hm; subst hm
         exact ⟨by simp, hwf, hne, hp, by simp [Spec.init, isDeferring]⟩
       · simp only
-        rw [(startDeferralFamilies_spec _ _ f).2]; simp [Spec.init]
+        rw [(startDeferralFamilies_spec _ _ f).2.1]; simp [Spec.init]
       · simp only [Option.some.injEq, RInner.awaiting.injEq] at h
         exact h.2.symm
 
